@@ -35,6 +35,12 @@ theorem firstFail_none_iff {cs : List (Site × Bool)} : firstFail cs = none ↔ 
     simp only [firstFail, if_true]
     exact ih fun p hp => h p (by simp [hp])
 
+theorem orderIdOf_execCtr (st : TState) (o : OrderView) : (orderIdOf st o).1.execCtr = st.execCtr := by
+  unfold orderIdOf
+  cases o.orderId with
+  | some x => rfl
+  | none => simp only; cases lookupRoot (rootOf o) st.orderIds <;> rfl
+
 /-- the tester state after the two counters were consumed -/
 def bumped (st : TState) (o : OrderView) : TState :=
   { (orderIdOf st o).1 with execCtr := st.execCtr + 1 }
@@ -51,8 +57,7 @@ theorem fabricate_ok {sc : Option (RMsg → Bool)} {st st' : TState} {o : OrderV
   | some s => simp [hp] at h
   | none =>
     simp only [hp] at h
-    have hexec : (orderIdOf st o).1.execCtr = st.execCtr := by
-      unfold orderIdOf; cases o.orderId <;> rfl
+    have hexec := orderIdOf_execCtr st o
     cases hm : firstFail (mainChecks o a) with
     | some s => simp [hm] at h
     | none =>
@@ -77,8 +82,7 @@ theorem fabricate_ok {sc : Option (RMsg → Bool)} {st st' : TState} {o : OrderV
 /-- the ExecID counter never goes down, whatever the outcome -/
 theorem fabricate_execCtr_le (sc : Option (RMsg → Bool)) (st : TState) (o : OrderView) (a : Args) :
     st.execCtr ≤ (fabricate sc st o a).1.execCtr := by
-  have hexec : (orderIdOf st o).1.execCtr = st.execCtr := by
-    unfold orderIdOf; cases o.orderId <;> rfl
+  have hexec := orderIdOf_execCtr st o
   unfold fabricate
   cases firstFail (preChecks st o a) with
   | some s => simp
@@ -90,6 +94,65 @@ theorem fabricate_execCtr_le (sc : Option (RMsg → Bool)) (st : TState) (o : Or
       cases sc with
       | none => simp [hexec]
       | some ok => simp only; split <;> simp [hexec]
+
+/-! ### the OrderID map (`_order_ids`, fix e62ed38) -/
+
+/-- for an order without OrderID the report carries the number the map holds for its root afterwards -/
+theorem orderIdOf_none {st : TState} {o : OrderView} (h : o.orderId = none) :
+    ∃ k, (orderIdOf st o).2 = .c k ∧ lookupRoot (rootOf o) (orderIdOf st o).1.orderIds = some k := by
+  unfold orderIdOf
+  rw [h]
+  simp only
+  cases hl : lookupRoot (rootOf o) st.orderIds with
+  | some k => exact ⟨k, rfl, hl⟩
+  | none => exact ⟨st.orderCtr + 1, rfl, by simp [lookupRoot]⟩
+
+/-- an entry of the map is never overwritten or dropped -/
+theorem knows_orderIdOf {st : TState} {r : List Nat} {k : Nat} (o : OrderView)
+    (h : lookupRoot r st.orderIds = some k) : lookupRoot r (orderIdOf st o).1.orderIds = some k := by
+  unfold orderIdOf
+  cases o.orderId with
+  | some x => exact h
+  | none =>
+    simp only
+    cases hl : lookupRoot (rootOf o) st.orderIds with
+    | some k' => exact h
+    | none =>
+      simp only [lookupRoot]
+      by_cases e : r = rootOf o
+      · rw [e, hl] at h; cases h
+      · simp [e, h]
+
+theorem fabricate_orderIds (sc : Option (RMsg → Bool)) (st : TState) (o : OrderView) (a : Args) :
+    (fabricate sc st o a).1.orderIds = st.orderIds ∨
+    (fabricate sc st o a).1.orderIds = (orderIdOf st o).1.orderIds := by
+  unfold fabricate
+  cases firstFail (preChecks st o a) with
+  | some s => exact Or.inl rfl
+  | none =>
+    simp only
+    cases firstFail (mainChecks o a) with
+    | some s => exact Or.inr rfl
+    | none =>
+      cases sc with
+      | none => exact Or.inr rfl
+      | some ok => simp only; split <;> exact Or.inr rfl
+
+theorem knows_fabricate {st : TState} {r : List Nat} {k : Nat} (sc : Option (RMsg → Bool)) (o : OrderView) (a : Args)
+    (h : lookupRoot r st.orderIds = some k) : lookupRoot r (fabricate sc st o a).1.orderIds = some k := by
+  rcases fabricate_orderIds sc st o a with e | e <;> rw [e]
+  · exact h
+  · exact knows_orderIdOf o h
+
+theorem knows_runCalls {r : List Nat} {k : Nat} (sc : Option (RMsg → Bool)) (calls : List (OrderView × Args)) :
+    ∀ {st : TState}, lookupRoot r st.orderIds = some k → lookupRoot r (runCalls sc st calls).1.orderIds = some k := by
+  induction calls with
+  | nil => intro st h; exact h
+  | cons c rest ih =>
+    intro st h
+    obtain ⟨o, a⟩ := c
+    simp only [runCalls]
+    exact ih (knows_fabricate sc o a h)
 
 theorem mem_mainChecks {o : OrderView} {a : Args} (h : firstFail (mainChecks o a) = none) (s : Site) (b : Bool)
     (hm : (s, b) ∈ mainChecks o a) : b = true := firstFail_none h (s, b) hm
